@@ -1122,14 +1122,17 @@ where
                 return Ok(result);
             }
             Some(0x26 /* & */) => {
-                self.consume('&');
-                if self.peek() == Some(0x26 /* & */) {
+                let mut lookahead = self.input.clone();
+                lookahead.next();
+                if lookahead.peek() == Some(&0x26 /* & */) {
+                    self.consume('&');
                     self.consume('&');
                     result.union_operand(first.clone());
                     ClassSetOperator::Intersection
                 } else {
+                    // A single '&' is an ordinary class character, possibly the start of a range
+                    // such as [a&-z]: leave it to the union loop below.
                     result.union_operand(first.clone());
-                    result.codepoints.add_one(0x26 /* & */);
                     ClassSetOperator::Union
                 }
             }
